@@ -367,6 +367,44 @@ def check_invalid(case, ctx):
     raise Violation("%s accepted the invalid region %r (%s) and returned %r" % (func, bad, case["kind"], result))
 
 
+# -------------------------------------------------------------- large inputs (vectorised oracle)
+@st.composite
+def large_cases(draw):
+    return dict(region=draw(gen.regions(allow_degenerate=False)), n=draw(st.sampled_from([20000, 65537, 200000])), seed=draw(st.integers(0, 10**6)),
+                shape2d=draw(st.booleans()), dtype="float64")
+
+
+def check_large(case, ctx):
+    w, e, s, n = case["region"]
+    rng = np.random.RandomState(case["seed"])  # a pure function of the generated case
+    m = case["n"]
+    x = w + (e - w) * rng.uniform(-0.25, 1.25, m)
+    y = s + (n - s) * rng.uniform(-0.25, 1.25, m)
+    # a sprinkling of points exactly on the bounds
+    on = rng.randint(0, m, size=64)
+    x[on[:32]] = rng.choice([w, e], size=32)
+    y[on[32:]] = rng.choice([s, n], size=32)
+    x, y = x.astype(case["dtype"]), y.astype(case["dtype"])
+    if case["shape2d"]:
+        k = [d for d in (2, 4, 5, 7) if m % d == 0]
+        if k:
+            x, y = x.reshape(k[-1], -1), y.reshape(k[-1], -1)
+    got = np.asarray(vd.inside((x, y), tuple(case["region"])))
+    xf, yf = x.astype("float64"), y.astype("float64")
+    exp = (xf >= w) & (xf <= e) & (yf >= s) & (yf <= n)
+    ctx.check(got.shape == x.shape and got.dtype == bool, "inside must return booleans in the input's shape")
+    if not np.array_equal(got, exp):
+        k = int(np.argmax(got.ravel() != exp.ravel()))
+        raise Violation("inside: point %d of %d (%r, %r) and region %r: got %r, closed box says %r" % (k, m, float(xf.ravel()[k]), float(yf.ravel()[k]), case["region"],
+                                                                                                    bool(got.ravel()[k]), bool(exp.ravel()[k])))
+    reg = vd.get_region((x, y))
+    ctx.check(tuple(float(v) for v in reg) == (float(xf.min()), float(xf.max()), float(yf.min()), float(yf.max())), "get_region of %d points is %r, the bounding box is %r",
+              m, reg, (xf.min(), xf.max(), yf.min(), yf.max()))
+    ctx.check(np.all(vd.inside((x, y), reg)), "some of %d points are outside their own bounding region", m)
+    ctx.label("n%d" % m, case["dtype"], "2d" if x.ndim == 2 else "1d")
+    ctx.nt(True)
+
+
 SUBCHECKS = [
     Sub("cloud", check_cloud, strategy=cloud_cases(), quick=1500, thorough=5000,
         doc="get_region tight, inside == closed-box predicate element-wise (points on, a hair inside/outside the bounds), every point inside its own region"),
@@ -376,6 +414,8 @@ SUBCHECKS = [
         doc="pad_region moves W/E by the east pad and S/N by the north pad outwards; the opposite pad restores the region"),
     Sub("project_region", check_projection, strategy=projection_cases(), quick=500, thorough=2000,
         doc="bounding box of the projected region for monotone, general linear and node-centred quadratic projections"),
+    Sub("large", check_large, strategy=large_cases(), quick=15, thorough=80,
+        doc="inside / get_region on 20 000 - 200 000 points (1-D and 2-D) against the vectorised closed-box predicate"),
     Sub("maxabs", check_maxabs, strategy=maxabs_cases(), quick=800, thorough=3000,
         doc="largest absolute value over all arrays, NaN-aware by default"),
     Sub("invalid_regions", check_invalid, strategy=invalid_cases(), quick=400, thorough=1500, shards_thorough=4,
